@@ -207,6 +207,7 @@ class Ctx:
             todo.append((n, c))
         clauses = todo
         good = True
+        rounds = 0
         while clauses:
             conj = z3.And(*[c for _, c in clauses])
             ok, model = vm.solver.oneshot(st.pc, z3.Not(conj))
@@ -223,9 +224,15 @@ class Ctx:
             if not failing:
                 failing = [clauses[0][0]]
             s.report(model, failing, call, props_of, extra_calls)
-            # look for violations of the remaining clause families too
+            # look for further violations among the clauses that held in this model (another property may own
+            # them); clauses of a family that already failed are dropped unless another property owns them
+            rounds += 1
+            if rounds >= 6:
+                break
+            seen_props = {p for f in failing for p in props_of(f)}
             fams = {f.split(':')[0] for f in failing}
-            clauses = [(n, c) for n, c in clauses if n.split(':')[0] not in fams]
+            clauses = [(n, c) for n, c in clauses if n not in failing and
+                       (n.split(':')[0] not in fams or not set(props_of(n)) <= seen_props)]
         return good
 
     def concrete_call(s, call, model):
@@ -278,6 +285,7 @@ PROPS = {
     'edges': ('C03', 'C19',),
     'fresh': ('C05',),
     'deterministic': ('C19',),
+    'order': ('C19',),
     'pos': ('C05',),
     'reader-result': ('C03', 'C19',),
     'keys': ('C01', 'C19',),
@@ -377,7 +385,7 @@ def ob_next_id(env, N, cap):
         pos1 = to_bv(w.pos(post), 64)
         first = z3.And(*[z3.Implies(r == i, z3.And(*[z3.Not(z3.And(T[j] == 0, z3.ULE(pos, j))) for j in range(i)])) for i in range(cap)])
         cl = [('fresh', z3.And(z3.ULT(r, cap), c.at(T, r) == 0, z3.UGE(r, pos))),
-              ('deterministic:first-absent-id', first),
+              ('deterministic:first-absent-id', z3.And(first, z3.ULT(r, cap), z3.UGE(r, pos), c.at(T, r) == 0)),
               ('pos', z3.And(z3.UGT(pos1, r), z3.UGE(pos1, pos), z3.ULE(pos1, cap)))]
         fr, nd = c.frame(post, lambda key: key[0] == 'pos')
         cl += fr
@@ -563,6 +571,8 @@ def ob_data(env, N, cap, v=None):
                 if key[1] < 2:
                     return True if k == 'ctr' else False
                 return b == key[1]
+            if k == 'items' and key[1] >= 2:
+                return z3.And(last, b == key[1])      # stale members of a collected slot are don't-care
             return False
         fr, nd = c.frame(post, allowed)
         cl += fr
@@ -632,18 +642,33 @@ def ob_bind(env, N, cap, v1=None, v2=None):
                 l2 = z3.Or(c.linked[i][j], z3.And(lk(i, v1), lk(j, v2)), z3.And(lk(i, v2), lk(j, v1)))
                 gh.append(z3.Implies(z3.And(T1[i] == T1[j], z3.UGE(T1[i], 2)), l2))
         cl.append(('ghost', z3.And(*gh)))
-        # edges of v1
+        # edges of v1.  C03: the label now leads to v2, every other label keeps its target, the count grows
+        # iff the label was new -- wherever the pairs sit.  The positions (replace in place / append) are
+        # asserted only for C19 (enumeration order must not depend on the configuration).
         ecl = []
+        ocl = []
         for i in range(cap):
             g = v1 == i
             ecl.append(z3.Implies(g, E1[i] == z3.If(new[i], E[i] + 1, E[i])))
-            for j in range(N):
-                tj = to_bv(w.etgt(post, i, j), 64)
-                kj = w.ekey_cells(post, i, j)
-                ecl.append(z3.Implies(z3.And(g, hit[i][j]), tj == v2))
-                ecl.append(z3.Implies(z3.And(g, new[i], E[i] == j), z3.And(tj == v2, label_cells_eq(c, kj, aimg))))
             ecl.append(z3.Implies(z3.Not(g), E1[i] == E[i]))
+            post_pairs = [(w.ekey_cells(post, i, j), to_bv(w.etgt(post, i, j), 64)) for j in range(N)]
+            pre_pairs = [(w.ekey_cells(c.pre, i, j), y.etgt[i][j]) for j in range(N)]
+            # the bound label is there and leads to v2
+            ecl.append(z3.Implies(g, z3.Or(*[z3.And(z3.UGT(E1[i], j2), post_pairs[j2][1] == v2,
+                                                    z3.Or(label_cells_eq(c, post_pairs[j2][0], aimg),
+                                                          *[z3.And(hit[i][j], label_cells_eq(c, post_pairs[j2][0], pre_pairs[j][0])) for j in range(N)]))
+                                             for j2 in range(N)])))
+            # every other label is still there with its target
+            for j in range(N):
+                ecl.append(z3.Implies(z3.And(g, z3.UGT(E[i], j), z3.Not(hit[i][j])),
+                                      z3.Or(*[z3.And(z3.UGT(E1[i], j2), post_pairs[j2][1] == pre_pairs[j][1],
+                                                     label_cells_eq(c, post_pairs[j2][0], pre_pairs[j][0])) for j2 in range(N)])))
+                tj = post_pairs[j][1]
+                kj = post_pairs[j][0]
+                ocl.append(z3.Implies(z3.And(g, hit[i][j]), tj == v2))
+                ocl.append(z3.Implies(z3.And(g, new[i], E[i] == j), z3.And(tj == v2, label_cells_eq(c, kj, aimg))))
         cl.append(('edges', z3.And(*ecl)))
+        cl.append(('order:edges', z3.And(*ocl)))
 
         def allowed(key):
             k = key[0]
@@ -653,14 +678,8 @@ def ob_bind(env, N, cap, v1=None, v2=None):
                 if key[1] < 2:
                     return True if k == 'ctr' else False
                 return z3.Or(n1 == key[1], n2 == key[1])
-            if k == 'elen':
-                return z3.And(v1 == key[1], new[key[1]])
-            if k == 'eval':
-                i, j = key[1], key[2]
-                return z3.And(v1 == i, z3.Or(hit[i][j], z3.And(new[i], E[i] == j)))
-            if k == 'ekey':
-                i, j = key[1], key[2]
-                return z3.And(v1 == i, new[i], E[i] == j)
+            if k in ('elen', 'eval', 'ekey'):
+                return v1 == key[1]
             return False
         fr, nd = c.frame(post, allowed)
         cl += fr
@@ -827,7 +846,8 @@ def ob_bind_slots(env, N, cap, v1=0, v2=1):
         T1 = c.T(post); CNT1 = c.CNT(post); CTR1 = c.CTR(post)
         n1 = T1[v1]
         unread = z3.If(P[v1] == STORED, U(1), U(0)) + z3.If(P[v2] == STORED, U(1), U(0))
-        it0 = z3.And(*[z3.Implies(n1 == b, z3.And(c.ITEM(post, b, 0) == v1, c.ITEM(post, b, 1) == v2)) for b in range(2, NSLOT)])
+        it0 = z3.And(*[z3.Implies(n1 == b, z3.Or(z3.And(c.ITEM(post, b, 0) == v1, c.ITEM(post, b, 1) == v2),
+                                                  z3.And(c.ITEM(post, b, 0) == v2, c.ITEM(post, b, 1) == v1))) for b in range(2, NSLOT)])
         cl = [('slot-formed:tag', z3.And(n1 == T1[v2], z3.UGE(n1, 2), z3.ULT(n1, NSLOT))),
               ('slot-formed:was-empty', c.at(CNT, n1) == 0),
               ('slot-formed:members', z3.And(c.at(CNT1, n1) == 2, it0)),
@@ -889,10 +909,11 @@ def ob_clone(env, N, cap):
         eqs = []
         for i in range(cap):
             eqs.append(to_bv(cw.tag(post, i), 64) == T[i])
-            eqs.append(to_bv(cw.pers(post, i), 8) == P[i])
-            eqs.append(to_bv(cw.elen(post, i), 64) == E[i])
+            here = T[i] != 0          # what an absent slot still holds is not observable: only its absence is copied
+            eqs.append(z3.Implies(here, to_bv(cw.pers(post, i), 8) == P[i]))
+            eqs.append(z3.Implies(here, to_bv(cw.elen(post, i), 64) == E[i]))
             for j in range(N):
-                eqs.append(z3.Implies(z3.UGT(E[i], j), z3.And(
+                eqs.append(z3.Implies(z3.And(here, z3.UGT(E[i], j)), z3.And(
                     to_bv(cw.etgt(post, i, j), 64) == y.etgt[i][j],
                     label_cells_eq(c, cw.ekey_cells(post, i, j), w.ekey_cells(c.pre, i, j)))))
         cl.append(('clone-equal:vertices', z3.And(*eqs)))
@@ -910,7 +931,7 @@ def ob_clone(env, N, cap):
         own = True
         for i in range(cap):
             dec = decode_hex(c, post, cw.a_data(i), want_ptr=True)
-            deq.append(hex_equals([(cd, n, bs) for cd, n, bs, _ in dec], y.data[i]))
+            deq.append(z3.Implies(z3.And(T[i] != 0, P[i] != EMPTY), hex_equals([(cd, n, bs) for cd, n, bs, _ in dec], y.data[i])))
             for cd, n, bs, ptr in dec:
                 if isinstance(ptr, int):
                     ptrs = [ptr]
